@@ -309,7 +309,10 @@ def gen_env_group(rng, idx, allow=("linear", "neighbors", "bandit", "tagged", "s
 
 
 def gen_learner(rng, idx):
-    k = weighted(rng, [("random", 2), ("eps", 3), ("ucb", 2), ("counter", 3), ("pmf", 3), ("kwargs", 1), ("corral", 1)])
+    k = weighted(rng, [("random", 2), ("eps", 3), ("ucb", 2), ("counter", 3), ("pmf", 3), ("kwargs", 1), ("corral", 1), ("info", 1.5)])
+    if k == "info":
+        # publishes through CobaContext.learning_info; sometimes fails right after publishing (what it published must not leak)
+        return ["info", {"tag": f"i{idx}", "every": 1 + rng.randrange(3), "raise_at": weighted(rng, [(None, 2), (rng.randrange(8), 1)])}]
     if k == "random":
         return ["random", {"seed": rng.randrange(1, 9)}]
     if k == "eps":
